@@ -43,7 +43,7 @@ func baseWorlds() []*wm.World {
 			{NS: "", Name: "p", PodSel: *wm.ML("app", "b"), Types: []string{"Ingress"}, Ingress: []wm.NPRule{{Peers: []wm.NPPeer{{Pod: wm.ML("app", "a")}}, Ports: []wm.NPPort{{HasPort: true, Num: 8080}}}}}}},
 		{NSs: nss, WLs: wls(), NPs: []wm.NP{
 			{NS: "ns1", Name: "p", PodSel: *wm.ML("app", "a"), Types: []string{"Ingress", "Egress"},
-				Ingress: []wm.NPRule{{Peers: []wm.NPPeer{{Pod: wm.ML("app", "b")}, {CIDR: "10.0.0.0/8"}}, Ports: []wm.NPPort{{HasPort: true, Name: "http"}}}},
+				Ingress: []wm.NPRule{{Peers: []wm.NPPeer{{Pod: wm.ML("app", "b")}, {CIDR: "10.0.0.0/8"}}, Ports: []wm.NPPort{{HasPort: true, Name: "http"}, {HasPort: true, Name: "mesh"}}}},
 				Egress:  []wm.NPRule{{Peers: []wm.NPPeer{{NSSel: all}}, Ports: []wm.NPPort{{HasPort: true, Name: "http"}, {HasPort: true, Num: 53, Proto: "UDP"}}}}}}},
 		{NSs: nss, WLs: wls(), NPs: []wm.NP{
 			{NS: "ns1", Name: "q", PodSel: *wm.ML("app", "b"), Types: []string{"Ingress"}, Ingress: []wm.NPRule{{Peers: []wm.NPPeer{{NSSel: all, Pod: wm.ML("app", "a")}}, Ports: []wm.NPPort{{HasPort: true, Name: "dns", Proto: "UDP"}, {HasPort: true, Num: 8080}}}}}},
